@@ -28,6 +28,25 @@ def _is_wild(v: Val) -> bool:
     return isinstance(v, Opaque) and "unspecified" in v.why
 
 
+def simplify_under(v, facts):
+    """a reading that the case's facts say is absent *is* None"""
+    absent = {(c[1][1], c[1][2]) for c in facts if isinstance(c, tuple) and c and c[0] == "not" and isinstance(c[1], tuple) and c[1] and c[1][0] == "present"}
+    if not absent:
+        return v
+
+    def rec(y):
+        if isinstance(y, Num):
+            a = poly._single_atom(y.f)
+            if a is not None and a[0] == "rd" and (a[1], a[2]) in absent:
+                return NoneV()
+            return y
+        if isinstance(y, DictV):
+            return DictV({k: rec(x) for k, x in y.items.items()})
+        return y
+
+    return rec(v)
+
+
 def same_val(a: Val, b: Val) -> Tuple[bool, str]:
     if _is_wild(a) or _is_wild(b):
         return True, ""
@@ -375,7 +394,8 @@ def compare_class(prop: str, res: Result, repo: Repo, ci: ClassInfo) -> None:
             continue
         for rfacts, rret, wr, rdrives, pr in matches:
             rguard = " & ".join(show_cond(c) for c in rfacts)[:160] or "always"
-            ok, why = same_val(cret, rret)
+            both = tuple(fc) + tuple(rfacts)
+            ok, why = same_val(simplify_under(cret, both), simplify_under(rret, both))
             if not ok:
                 res.fail("R-VN", finding(prop, "R-VN", fn, pc.node or fn.node, f"under [{guard}] the reading differs from the definition (case [{rguard}]): {why}", construct=f"{ci.name} value under [{guard}]"[:190]))
                 continue
